@@ -90,3 +90,6 @@ func runProtoModel(mp *onnx.ModelProto, outputs []string) mon.Outcome {
 }
 
 func getOp(name string) (ops.Operator, error) { return opset13.GetOperator(name) }
+
+// C15Names lists the operator names of the opset (for probes).
+func C15Names() []string { return c15Names }
